@@ -161,6 +161,24 @@ Proof.
   split; auto. exists dek, r1, r2. auto.
 Qed.
 
+(* open is: version check, unwrap the data key with the DEK context, decrypt with the
+   database context *)
+Theorem open_via_dec kek ver dekf dbf :
+  open kek (wrapper ver dekf dbf) =
+  match ver with
+  | Pub 1 => match dec kek adDEK dekf with
+             | Some (Key dek) => dec dek adDB dbf
+             | _ => None end
+  | _ => None end.
+Proof.
+  unfold open, wrapper, dec.
+  destruct ver as [v| | | | | |]; try reflexivity.
+  destruct v as [|[p|p|]]; try reflexivity.
+  destruct dekf as [| | | | | |k1 ad1 r1 m1]; try reflexivity.
+  destruct m1 as [| | |dk| | |]; try (destruct (N.eqb k1 kek && N.eqb ad1 adDEK)%bool; reflexivity).
+  destruct dbf as [| | | | | |k2 ad2 r2 m2]; try (destruct (N.eqb k1 kek && N.eqb ad1 adDEK)%bool; reflexivity).
+Qed.
+
 (* a file whose DB field is the original one opens - under ANY key, with ANY version field and
    ANY data-key field (damaged, or taken from another database) - to the original contents or
    not at all *)
